@@ -341,6 +341,8 @@ struct Harness
             int rc = a_str_setm(s, (a_size)o.a);
             if (rc != A_SUCCESS) { ck.fail("refused", "setm failed"); return; }
             if (s->mem_ < (size_t)o.a) { ck.fail("capacity", "setm(" + std::to_string(o.a) + ") left capacity " + std::to_string(s->mem_)); return; }
+            // the NUL a terminating variant left after the content survives a change of capacity that still has room for it
+            if (was_term && s->num_ < s->mem_ && !is_term(s)) { ck.fail("terminator-lost", "setm(" + std::to_string(o.a) + ") on a terminated string left the byte directly after the content non-NUL"); return; }
             break;
         }
         case S_SETM_RAW:
@@ -351,6 +353,7 @@ struct Harness
             if (rc != A_SUCCESS) { ck.fail("refused", "setm_(" + std::to_string(o.a) + ") reported failure although no allocation failed"); return; }
             if (o.a == 0 && (s->ptr_ || s->mem_)) { ck.fail("capacity", "setm_(0) on an empty string did not release the storage"); return; }
             if (s->mem_ < (size_t)o.a) { ck.fail("capacity", "setm_(" + std::to_string(o.a) + ") left capacity " + std::to_string(s->mem_)); return; }
+            if (was_term && s->num_ < s->mem_ && !is_term(s)) { ck.fail("terminator-lost", "setm_(" + std::to_string(o.a) + ") on a terminated string left the byte directly after the content non-NUL"); return; }
             break;
         }
         case S_EXIT:
@@ -879,18 +882,19 @@ static void byte_sweep(const std::string &job)
         {
             bool blank = (b >= 9 && b <= 13) || b == 32;
             char mid = 'x';
-            for (int side = 0; side < 3 && why.empty(); ++side) // 0: both, 1: left, 2: right
+            for (int side = 0; side < 6 && why.empty(); ++side) // 0: both, 1: left, 2: right; 3..5: the same with a non-null set pointer (n = 0 selects white space whatever s is)
             {
+                const char *sp = side >= 3 ? "xyz" : nullptr;
                 a_str_setn_(s, 0);
                 a_str_catc(s, b); a_str_catc(s, mid); a_str_catc(s, b);
-                if (side == 0) { a_str_trim(s, nullptr, 0); } else if (side == 1) { a_str_ltrim(s, nullptr, 0); } else { a_str_rtrim(s, nullptr, 0); }
+                if (side % 3 == 0) { a_str_trim(s, sp, 0); } else if (side % 3 == 1) { a_str_ltrim(s, sp, 0); } else { a_str_rtrim(s, sp, 0); }
                 std::string want;
-                if (!(blank && side != 2)) { want += (char)b; }
+                if (!(blank && side % 3 != 2)) { want += (char)b; }
                 want += mid;
-                if (!(blank && side != 1)) { want += (char)b; }
+                if (!(blank && side % 3 != 1)) { want += (char)b; }
                 if (a_str_len(s) != want.size() || memcmp(a_str_ptr(s), want.data(), want.size()) != 0 || a_str_ptr(s)[want.size()] != 0)
                 {
-                    why = std::string("white-space trim (") + (side == 0 ? "both sides" : side == 1 ? "left" : "right") + (blank ? ") did not strip the blank" : ") stripped a byte that is not white space");
+                    why = std::string("white-space trim (") + (side % 3 == 0 ? "both sides" : side % 3 == 1 ? "left" : "right") + (side >= 3 ? ", n = 0 with a non-null set pointer" : "") + (blank ? ") did not strip the blank" : ") stripped a byte that is not white space");
                 }
             }
         }
